@@ -32,12 +32,37 @@ IDXQ = {'P': 'get_parents_idx', 'C': 'get_children_idx', 'A': 'get_ancestor_idx'
 OTHERS = {'none': None, 'int': 5, 'float': 3.5, 'bytes': b'HP:1', 'tuple': ('HP:1',), 'list': ['HP:1'], 'bool': True}
 
 
+class UserTermId(TermId):
+    """a term id class written by a user of the library: only the two abstract properties, everything else (==, hash, <,
+    value) inherited from hpotk.TermId - whatever concrete class produced it, it is the id (prefix, id)"""
+
+    def __init__(self, prefix, id_):
+        self._p, self._i = prefix, id_
+
+    @property
+    def prefix(self):
+        return self._p
+
+    @property
+    def id(self):
+        return self._i
+
+
+def user_tid(curie):
+    t = TermId.from_curie(curie)
+    return UserTermId(t.prefix, t.id)
+
+
 def mkarg(spec):
     kind, v = spec
     if kind == 'str':
         return v
     if kind == 'tid':
         return TermId.from_curie(v)
+    if kind == 'utid':
+        return user_tid(v)
+    if kind == 'uident':
+        return Ident(user_tid(v))
     if kind == 'ident':
         return Ident(TermId.from_curie(v))
     if kind in ('oterm', 'cterm'):
